@@ -1,6 +1,7 @@
 package engines
 
 import (
+	"encoding/hex"
 	"fmt"
 	cpcabi "github.com/EscanBE/evermint/v12/x/cpc/abi"
 	cpctypes "github.com/EscanBE/evermint/v12/x/cpc/types"
@@ -253,6 +254,7 @@ func runBlocks(t *testing.T, f *blockFixture, rng *hx.Rng, p *hx.Proto, nTx int)
 		admittedCnt, logTotal, cumTotal := int64(0), int64(0), uint64(0)
 		admittedBy := map[int]uint64{}
 		blockBloom := ethtypes.Bloom{}
+		var bloomRcpts, bloomWant []string // the logs of every receipt of the block (model input) and the receipts' own bloom fields
 		for i, g := range txs {
 			o := c.observe(res.TxResults[i])
 			if g.replay && i > 0 && g.kind == "replay-same-block" {
@@ -309,6 +311,26 @@ func runBlocks(t *testing.T, f *blockFixture, rng *hx.Rng, p *hx.Proto, nTx int)
 					}
 					for j := range blockBloom {
 						blockBloom[j] |= o.receipt.Bloom[j]
+					}
+					{
+						var ls []string
+						for _, lg := range o.receipt.Logs {
+							it := []string{hex.EncodeToString(lg.Address.Bytes())}
+							for _, tp := range lg.Topics {
+								it = append(it, hex.EncodeToString(tp.Bytes()))
+							}
+							ls = append(ls, strings.Join(it, ","))
+						}
+						enc := "-"
+						if len(ls) > 0 {
+							enc = strings.Join(ls, "|")
+						}
+						bloomRcpts = append(bloomRcpts, enc)
+						if o.receipt.Bloom.Big().Sign() == 0 {
+							bloomWant = append(bloomWant, "-")
+						} else {
+							bloomWant = append(bloomWant, hex.EncodeToString(o.receipt.Bloom.Bytes()))
+						}
 					}
 				} else if o.hasEthEv { // admitted but not committed: the assume-failed receipt counts the full gas limit
 					cumTotal += g.ethTx.Gas()
@@ -405,6 +427,15 @@ func runBlocks(t *testing.T, f *blockFixture, rng *hx.Rng, p *hx.Proto, nTx int)
 			}
 			if !found || got != want {
 				p.Oracle("block-bloom", "block bloom event (found=%v) is not the union of the receipt blooms", found)
+			}
+			// the same through the Lean model of the bloom filter (Keccak-256 in Lean): every receipt's bloom from its own logs,
+			// and the block bloom as EndBlock reports it
+			if len(bloomRcpts) > 0 {
+				if got == "" {
+					got = "-"
+				}
+				p.Emit("bloom "+strings.Join(bloomRcpts, ";"), "rb="+strings.Join(bloomWant, ",")+" bb="+got)
+				p.Count("bloom-line")
 			}
 		}
 		for i, w := range ws {
